@@ -31,7 +31,9 @@ from .corpus import CORPUS
 
 PROP = "C14"
 FEATURE_SETS = ("full",)
-GRAMMARS = ["g1", "c1", "p1", "hd", "c2", "f1", "f2"]
+GRAMMARS = ["g1", "c1", "p1", "hd", "c2", "f1", "f2", "x1"]
+# values returned by the user completer of a grammar's argument: {grammar: (short name of the argument, values)}
+COMPLETER = {"x1": ("d", ["1", "2"])}
 TYPED = ["", "-", "--", "--a", "--al", "--be", "--n", "--zz", "-a", "-b", "-n", "a", "ad", "ax", "r", "m", "c", "zz", "--st", "--beta=", "-b="]
 
 
@@ -190,10 +192,18 @@ def run_job(job, build):
                 if isinstance(f, G.Cmds):
                     for c in f.cmds:
                         cmds_here.append(c)
+            comp = COMPLETER.get(g.name)
             for subst, pretty in cands:
                 if subst == "":
                     continue  # metavariable placeholder
                 if subst == "--":
+                    continue
+                if comp and subst in comp[1]:
+                    # a value produced by the user's completer: only while that argument's value is being typed
+                    prev = items[-1] if items else None
+                    f_arg = [f for f in C10.level_named(active) if f.shorts and chr(f.shorts[0]) == comp[0]]
+                    if prev is None or prev.kind not in ("short", "long") or prev.adj or not f_arg or not G.name_match(e, env, f_arg[0], prev):
+                        problems.append("completer value %r offered although the value of -%s is not being typed" % (subst, comp[0]))
                     continue
                 if subst in allowed:
                     if not matches_typed(allowed[subst], typed):
@@ -333,6 +343,9 @@ def typed_words(g, tier):
         add("--" + l)
     for c in g.all_shorts[: (3 if tier == "quick" else 8)]:
         add("-" + chr(c))
+    if g.name in COMPLETER:
+        for v in ("1", "12", "7"):
+            add(v)
     return out
 
 
